@@ -119,7 +119,35 @@ def verdicts(chk: Check) -> None:
     ok = len(rets) == 1 and errvar is not None
     ok = ok and all(any(a_[0] in ('notnone', 'T') and a_[1] == errvar for a_ in ff.at(n)) for n in ff.cfg.nodes if n.kind == 'return' and n.ast is rets[0])
     chk.ob('DOM-verdict-not-dropped', pv, ok, 'Port.validate returns an error exactly when one was found', kind='port-returns-error')
+    # a validator that is configured is actually ASKED: no accepting path (return None) skips it when there was something to validate
+    from ..decisions import leaf as _leaf, paths_under as _paths
+
+    def asked_on_every_accepting_path(f_, given: dict, what: str) -> None:
+        fff = chk.ctx.facts.analyse(f_)
+        val = {}
+        for txt, truth in given.items():
+            k_, pol_ = _leaf(fff, ast.parse(txt, mode='eval').body)
+            val[k_] = truth == pol_
+        asks = [m for m in fff.cfg.nodes if any(norm(c.func) == 'self.validator' for c in ([x for x in walk_shallow(m.expr()) if isinstance(x, ast.Call)] if m.expr() is not None else []))]
+        skipped, n_acc = [], 0
+        try:
+            for path in _paths(fff, val, frozen=[f_.params[1]]):   # (re-binding the parameter to a copy of itself keeps what is known about it)
+                if path[-1] is not fff.cfg.exit:
+                    continue
+                rets_ = [m for m in path if m.kind == 'return']
+                v_ = rets_[-1].ast.value if rets_ else None
+                if v_ is None or (isinstance(v_, ast.Constant) and v_.value is None):
+                    n_acc += 1
+                    if not any(m in asks for m in path):
+                        skipped.append([m.lineno for m in path if m.kind in ('test', 'return')][-4:])
+        except RuntimeError:
+            skipped.append(['too many paths'])
+        chk.ob('DOM-verdict-not-dropped', f_, bool(asks) and n_acc >= 1 and not skipped, f'{what}: of {n_acc} accepting path(s) none skips the configured validator'
+               + (f' (skipping: test/return lines {skipped[:2]})' if skipped else ''), kind='validator-always-asked')
+    vpn = pv.params[1]
+    asked_on_every_accepting_path(pv, {f'{vpn} is UNSPECIFIED': False, 'self.validator is None': False, 'self._valid_type is None': True}, 'Port.validate, a value given and a validator configured')
     nv = prog.func('ports.PortNamespace.validate')
+    asked_on_every_accepting_path(nv, {'self.validator is None': False, f'{nv.params[1]}': True}, 'PortNamespace.validate, values given and a validator configured')
     for c in [x for x in calls_in_func(nv) if norm(x.func) == 'self.validator']:
         ff = chk.ctx.facts.analyse(nv)
         ok, why = verdict_propagated(ff, c)
